@@ -122,5 +122,5 @@ func c04Settle() {
 	for i := 0; i < 50; i++ {
 		runtime.Gosched()
 	}
-	time.Sleep(20 * time.Millisecond)
+	time.Sleep(300 * time.Millisecond) // native only: lets the real deletion goroutines finish also on a loaded machine
 }
